@@ -9,6 +9,7 @@ import (
 	"errors"
 	"fmt"
 	"io"
+	"net/http"
 	"net/url"
 	"os"
 	"path/filepath"
@@ -456,6 +457,15 @@ func clientJar(s *simrt.Sim, info *harness.RunInfo) {
 			if ma := atoi(f[3]); ma > 0 {
 				ck.MaxAge = ma
 				ck.Expires = time.Now().Add(time.Duration(ma) * time.Second)
+			} else if ma == -2 || ma == -3 {
+				// Max-Age and Expires disagree (RFC 6265 5.3: Max-Age wins). fasthttp's cookie writer never
+				// emits both, so the line is written as another server implementation would
+				line := fmt.Sprintf("%s=%s; Path=%s; Max-Age=0; Expires=%s", ck.Name, ck.Value, ck.Path, time.Now().Add(time.Hour).UTC().Format(http.TimeFormat))
+				if ma == -3 {
+					line = fmt.Sprintf("%s=%s; Path=%s; Max-Age=5; Expires=%s", ck.Name, ck.Value, ck.Path, time.Now().Add(-time.Hour).UTC().Format(http.TimeFormat))
+				}
+				c.Response().Header.Add("Set-Cookie", line)
+				continue
 			} else if ma < 0 {
 				ck.Expires = time.Now().Add(-time.Hour)
 				ck.MaxAge = -1
@@ -689,9 +699,14 @@ func clientJar(s *simrt.Sim, info *harness.RunInfo) {
 			var entries []*jarEntry
 			for j := 0; j < n; j++ {
 				e := &jarEntry{name: names[s.Draw(len(names))], path: paths[s.Draw(len(paths))], value: fmt.Sprintf("r%d.%d", i, j)}
-				ma := simrt.PickS(s, 0, 3, -1, 5, 0)
+				ma := simrt.PickS(s, 0, 3, -1, 5, 0, -2, -3)
+				if ma <= -2 {
+					s.Count("probe_set_cookie_max_age_and_expires_disagree")
+				}
 				if ma > 0 {
 					e.expires = now.Add(time.Duration(ma) * time.Second)
+				} else if ma == -3 {
+					e.expires = now.Add(5 * time.Second)
 				} else if ma < 0 {
 					e.expires = now.Add(-time.Hour)
 				}
